@@ -15,7 +15,7 @@ from vlib import gen, optable, runner
 
 PROPERTY = "C01"
 LEVEL = "exploration"
-TIMEOUT = {"quick": 900, "thorough": 5400}
+TIMEOUT = {"quick": 1500, "thorough": 7200}
 RULE = (
     "recipes drawn by vlib.gen.Gen (random DAGs over the public function table; shapes 0-4 dims, "
     "sizes 0-9 (quick) / 0-13 (thorough), every regular chunking, 13 dtypes, sharing, 1-3 outputs); "
